@@ -28,7 +28,20 @@ def gen_job(verif_seed, tier, index):
     job, st = jobgen.base_job(PROP, verif_seed, tier, index, PROFILE)
     g = st.gen
     spec = job["spec"]
-    mode = g.choice(["geom", "geom", "rw", "rw", "dist", "dist", "pers", "cycle", "cycle", "mix"])
+    mode = g.choice(["geom", "geom", "rw", "rw", "dist", "dist", "dist", "pers", "cycle", "cycle", "mix"])
+    if mode == "cycle" and g.random() < 0.7:
+        # one or two ring types built from differently sized residues, all declared cyclic
+        names = sorted(spec["restypes"])
+        used = []
+        for k, mt in enumerate(spec["moltypes"][:2]):
+            n = g.randint(3, 9)
+            rn = g.choice([x for x in names if x not in used] or names)
+            used.append(rn)
+            mt.update({"shape": "ring", "residues": [rn] * n, "edges": [[i, i + 1] for i in range(n - 1)] + [[0, n - 1]]})
+            if not any(nm == mt["name"] for nm, _ in spec["molecules"]):
+                spec["molecules"].append([mt["name"], g.randint(1, 3)])
+        job["opts"].pop("density", None)
+        job["opts"].update(topgen.choose_box(g, spec, {"box_modes": ["cubic", "noncubic"]}))
     if mode in ("dist", "pers"):
         # distance-type restraints need room: the first molecule type becomes a linear chain of 8-14 residues
         mt = spec["moltypes"][0]
@@ -39,7 +52,21 @@ def gen_job(verif_seed, tier, index):
         mt["edges"] = [[k, k + 1] for k in range(n - 1)]
         if not any(nm == mt["name"] for nm, _ in spec["molecules"]):
             spec["molecules"].insert(0, [mt["name"], g.randint(1, 2)])
+        if mode == "dist" and len(spec["moltypes"]) >= 2 and g.random() < 0.6:
+            # a second restrained chain type built from other (differently sized) residues
+            mt2 = spec["moltypes"][1]
+            n2 = g.randint(6, 10)
+            other = [nm for nm in names if nm not in mt["residues"]] or names
+            mt2["shape"] = "linear"
+            mt2["residues"] = [g.choice(other)] * n2
+            mt2["edges"] = [[k, k + 1] for k in range(n2 - 1)]
+            if not any(nm == mt2["name"] for nm, _ in spec["molecules"]):
+                spec["molecules"].append([mt2["name"], g.randint(1, 3)])
         job["opts"].update(topgen.choose_box(g, spec, {"box_modes": ["cubic", "noncubic"]}))
+        if mode == "dist" and not job["tape"].get("step"):
+            # rewinds while distance restraints are in force (reference residues get re-placed)
+            from simkit.core import draw_lane
+            job["tape"]["step"] = draw_lane(st.tape, 60, g.choice([0.05, 0.15, 0.3]), g.random() < 0.5)
     sizes = max(topgen.est_size(rt) for rt in spec["restypes"].values())
     maxres = max(len(m["residues"]) for m in spec["moltypes"])
     box = job["opts"]["box"]
